@@ -11,10 +11,16 @@ absolute, relative, ./x, a/../x, doubled slash, trailing slash, /abs/./x, and th
 '%(jugfile)s.jugdata' derived from `jug cleanup jugfile.py` / `./jugfile.py` / an absolute jugfile), the store is observed before and after (raw directory / dictionary content,
 `list()`, `listlocks()`, `is_failed()`, `can_load()`, `Task.can_load()`) and coqc checks that
 the model maps the observed before-state to the observed after-state.
+Every observation is made through a NEW store object (a new process): for file stores a new file_store, for redis
+a new client, and for the in-memory store with a backing file (backend 'dictfile' = `--jugdir dict_store:FILE`) a
+dict_store that reads the file the command's process wrote when it closed its store - so "what the command did" is
+what survives closing and re-opening the store, results AND locks (held / failed); the producers' locks and results
+must likewise be there when the store is opened again before the command.
 Search: the set equations of the property evaluated in Python on the same observations."""
 import contextlib
 import hashlib
 import os
+import pickle
 import random
 import shutil
 import signal
@@ -40,13 +46,14 @@ EVIDENCE = dict(
          'holds at least one result or lock before the command; distinct = distinct (backend, mode, interned active set, '
          'interned before-state, spelling of the jug directory)',
     explanation='Coq theorems over the cleanup model of the three backends + differential evaluation of the model '
-                'against the real command on real stores (file, packed file, dict, fake-redis)',
+                'against the real command on real stores (file, packed file, dict, dict with backing file, fake-redis), '
+                'observed through re-opened stores',
 )
 
 MODES = ('default', 'keep_locks', 'locks_only', 'failed_only')
 MODE_COQ = {'default': 'Default', 'keep_locks': 'KeepLocks', 'locks_only': 'LocksOnly', 'failed_only': 'FailedOnly'}
 MODE_FLAG = {'default': [], 'keep_locks': ['--keep-locks'], 'locks_only': ['--locks-only'], 'failed_only': ['--failed-only']}
-BACKENDS = ('file', 'filepack', 'dict', 'redis')
+BACKENDS = ('file', 'filepack', 'dict', 'dictfile', 'redis')       # dictfile = dict_store:FILE (with its backing file)
 REDIS_URL = 'redis://localhost/'
 MODNAME = 'c10jugfile'
 
@@ -250,7 +257,7 @@ def gen_spec(rng, H, backend, mode, driver):
         'dump_before_pack': p1, 'dump_after_pack': p2, 'big': big,
         'locks': locks,
         'temps': (rng.choice([0, 0, 1, 2]) if backend in ('file', 'filepack') and not empty else 0),
-        'others': (rng.choice([0, 0, 1, 2]) if backend in ('dict', 'redis') and not empty else 0),
+        'others': (rng.choice([0, 0, 1, 2]) if backend in ('dict', 'dictfile', 'redis') and not empty else 0),
     }
     return spec
 
@@ -280,6 +287,8 @@ class Env:
                 if os.path.realpath(self.jd_spelled) != os.path.realpath(self.jd):
                     raise HarnessError('C10 harness: spelling %s does not name %s' % (spelling, self.jd))
         self.dstore = dict_store() if backend == 'dict' else None
+        self.dfile = os.path.join(root, 'results.dict_store') if backend == 'dictfile' else None
+        self.opened = []                  # dict_store objects on the backing file that must not write it when collected
         self.srv = fakeredis.FakeServer() if backend == 'redis' else None
         if self.srv is not None:
             fakeredis.install(self.srv)
@@ -291,8 +300,23 @@ class Env:
             return file_store(self.jd_spelled if spelled else self.jd)
         if self.backend == 'dict':
             return self.dstore
+        if self.backend == 'dictfile':
+            # a new process: reads the backing file (and would rewrite it on close() / when collected)
+            st = dict_store(self.dfile)
+            self.opened.append(st)
+            return st
         fakeredis.install(self.srv)
         return redis_mod.redis_store(REDIS_URL)
+
+    def discard(self, st):
+        """an observing store object goes away WITHOUT writing the backing file"""
+        if self.backend == 'dictfile':
+            st.backend = None
+
+    def end_process(self, st):
+        """what the end of a jug process does to its store object (jug.main: store.close())"""
+        if self.backend == 'dictfile':
+            st.close()
 
     def jugdir_args(self):
         """the --jugdir part of a command line"""
@@ -300,6 +324,8 @@ class Env:
             return [] if self.jd_arg is None else ['--jugdir', self.jd_arg]
         if self.backend == 'dict':
             return ['--jugdir', self.dstore]
+        if self.backend == 'dictfile':
+            return ['--jugdir', 'dict_store:' + self.dfile]
         return ['--jugdir', REDIS_URL]
 
 
@@ -322,7 +348,9 @@ def _build(spec, env):
     backend = spec['backend']
     big = set(spec['big'])
     sp = env.build_spelled           # the producers named the jug directory like the command will
-    stale = env.open(sp)             # for file stores: opened before any pack exists, its .packed stays {}
+    # for file stores: opened before any pack exists, its .packed stays {}; the in-memory store with a backing file
+    # has ONE producer process at a time: it is opened after the `jug execute` below and closed at the end
+    stale = env.open(sp) if backend != 'dictfile' else None
     if spec['exec_old']:
         old = spec['old']
         write_jugfile(env.jugfile, old['params'], [tuple(p) for p in old['pairs']])
@@ -331,6 +359,8 @@ def _build(spec, env):
         if code not in (None, 0):
             raise HarnessError('C10 harness: jug execute of the old jugfile failed: %r %s %s' % (code, out[-300:], err[-300:]))
     s1 = env.open(sp)
+    if backend == 'dictfile':
+        stale = s1
     for k in spec['dump_before_pack']:
         s1.dump(value_for(k, big), bx(k))
     if backend == 'filepack':
@@ -352,8 +382,11 @@ def _build(spec, env):
     for i in range(spec['others']):
         if backend == 'dict':
             env.dstore.store[b'misc:%d' % i] = b'x'
+        elif backend == 'dictfile':
+            s1.store[b'misc:%d' % i] = b'x'
         else:
             env.srv.data[b'misc:%d' % i] = b'x'
+    env.end_process(s1)              # the producer exits: dict_store:FILE is written now
     cur = spec['current']
     write_jugfile(env.jugfile, cur['params'], [tuple(p) for p in cur['pairs']])
 
@@ -408,6 +441,14 @@ def observe(env, keys, inproc=None, tasks=None):
     elif env.backend == 'dict':
         dm = sys.modules['jug.backends.dict_store']
         o['raw'] = scan_kv(list(env.dstore.store.items()), dm._LOCKED, dm._FAILED)
+    elif env.backend == 'dictfile':
+        # the backing file itself, read without jug
+        dm = sys.modules['jug.backends.dict_store']
+        content = {}
+        if os.path.exists(env.dfile):
+            with open(env.dfile, 'rb') as fh:
+                content = pickle.load(fh)
+        o['raw'] = scan_kv(list(content.items()), dm._LOCKED, dm._FAILED)
     else:
         o['raw'] = scan_kv(list(env.srv.data.items()), redis_mod._LOCKED, redis_mod._FAILED)
     if inproc is not None:
@@ -420,6 +461,7 @@ def observe(env, keys, inproc=None, tasks=None):
             o['task_can_load'] = [[hx(t.hash()), bool(t.can_load())] for t in tasks]
         finally:
             jug.task.Task.store = old
+    env.discard(s)
     return o
 
 
@@ -463,6 +505,7 @@ def run_cleanup(spec, env):
             store, space = jug.jug.init(env.jugfile_arg, env.open(spelled=True))
             opts = PlainOptions(mode)
             cleanup_mod.cleanup.run(store=store, options=opts)
+            env.end_process(store)
         msg = ' '.join(opts.printed)
     else:
         raise ValueError(driver)
@@ -477,6 +520,14 @@ def oracle(spec, active, before, after):
     mode, backend = spec['mode'], spec['backend']
     bad = []
     A = set(active)
+    # what the producers left must be what a new store object sees before the command: the locks they hold / marked
+    # failed (and the results they stored) survive closing the store and opening it again
+    want_locks = sorted([k, bool(f)] for k, f in spec['locks'])
+    if sorted(before['locks']) != want_locks:
+        bad.append(('locks held when the store was closed are there when it is opened again', want_locks, sorted(before['locks'])))
+    stored = set(spec['dump_before_pack']) | set(spec['dump_after_pack'])
+    if not stored <= set(before['list']):
+        bad.append(('results stored before the store was closed are there when it is opened again', sorted(stored), before['list']))
     rb, ra = set(before['list']), set(after['list'])
     exp_r = (rb & A) if mode in ('default', 'keep_locks') else rb
     if ra != exp_r:
@@ -502,6 +553,12 @@ def oracle(spec, active, before, after):
     for k, v in after.get('task_can_load', []):
         if v != (k in exp_r):
             bad.append(('Task.can_load(%s)' % k, k in exp_r, v))
+    if 'raw' in after:
+        # the raw key space says the same as the API of the re-opened store
+        rr = sorted(e[1] for e in after['raw'] if e[0] == 'result')
+        rl = sorted([e[1], e[2]] for e in after['raw'] if e[0] == 'lock')
+        if rr != sorted(ra) or rl != sorted([k, f] for k, f in la.items()):
+            bad.append(('raw content of the store vs list()/listlocks() of a new store object', [rr, rl], [sorted(ra), sorted(la.items())]))
     if mode in ('locks_only', 'failed_only'):
         if backend in ('file', 'filepack'):
             for fld in ('files', 'pack', 'temps'):
@@ -556,7 +613,7 @@ def state_lit(backend, o, ids):
             ents.append('KLock %d %s' % (ids[e[1]], boollit(e[2])))
         else:
             ents.append('KOther %d' % ids[e[1]])
-    return '(%s [%s])' % ('SDict' if backend == 'dict' else 'SRedis', ';'.join(ents))
+    return '(%s [%s])' % ('SDict' if backend in ('dict', 'dictfile') else 'SRedis', ';'.join(ents))
 
 
 def case_lit(spec, active, before, after, ids):
@@ -654,12 +711,12 @@ def run(ck):
         try:
             H = universe(root)
             for i in range(N):
-                backend = BACKENDS[i % 4]
-                mode = MODES[(i // 4) % 4]
+                backend = BACKENDS[i % 5]
+                mode = MODES[(i // 5) % 4]
                 if backend == 'dict':
-                    driver = ('cmdapi', 'direct')[(i // 16) % 2]
+                    driver = ('cmdapi', 'direct')[(i // 20) % 2]
                 else:
-                    driver = ('cli', 'cli', 'cmdapi', 'direct')[(i // 16) % 4]
+                    driver = ('cli', 'cli', 'cmdapi', 'direct')[(i // 20) % 4]
                 spec = gen_spec(rng, H, backend, mode, driver)
                 croot = os.path.join(root, 'c%d' % i)
                 os.makedirs(croot)
@@ -712,10 +769,10 @@ def run(ck):
                     ck.sample({'backend': backend, 'mode': mode, 'driver': driver, 'active': [ids[k] for k in active],
                                'before': before_summary(before, ids), 'after': before_summary(after, ids), 'message': msg})
             # option plumbing: the three flags are mutually exclusive and a rejected command touches nothing
-            for j in range(ck.n(12, 60)):
-                backend = ('file', 'filepack', 'redis')[j % 3]
+            for j in range(ck.n(16, 64)):
+                backend = ('file', 'filepack', 'redis', 'dictfile')[j % 4]
                 flags = [['--locks-only', '--keep-locks'], ['--failed-only', '--keep-locks'],
-                         ['--locks-only', '--failed-only'], ['--locks-only', '--failed-only', '--keep-locks']][j % 4]
+                         ['--locks-only', '--failed-only'], ['--locks-only', '--failed-only', '--keep-locks']][(j // 4) % 4]
                 spec = gen_spec(rng, H, backend, 'default', 'cli')
                 croot = os.path.join(root, 'x%d' % j)
                 os.makedirs(croot)
